@@ -121,9 +121,13 @@ const Type* TypeChecker::unqualifiedAndResolved(const Type* ty)
             case TypeKind::Qualified:
                 ty = ty->asQualifiedType()->unqualifiedType();
                 break;
-            case TypeKind::TypedefName:
-                ty = ty->asTypedefNameType()->resolvedSynonymizedType();
+            case TypeKind::TypedefName: {
+                auto resolvedTy = ty->asTypedefNameType()->resolvedSynonymizedType();
+                if (!resolvedTy)
+                    return ty;
+                ty = resolvedTy;
                 break;
+            }
             default:
                 return ty;
         }
